@@ -108,7 +108,7 @@ TOLERANCES = {
     "average-order-mean": 1e-12, "average-order-noise": 1e-12,
     "update-pol-norm-ulp": 4.0, "update-pol-direction-ulp": 4.0,
 }
-TIMEOUT = 300
+TIMEOUT = 600
 
 ILL = "illumination"
 FIELDS = ["medium_index", "illum_wavelen", "illum_polarization", "noise_sd"]
@@ -1578,7 +1578,14 @@ def _run_updatepol(case, ck, d):
     acc = []
     spell = [(1, 0), [0, 1], (1, 1), (3, 4), (0.6, 0.8), (1, 0, 0),
              (0.0, -2.0), np.array([1e-8, 1e-8]), (5e3, 12e3),
-             np.array([1.0, 2.0, 2.0]), (-1, 1), (1e150, 1e150)]
+             np.array([1.0, 2.0, 2.0]), (-1, 1), (1e150, 1e150),
+             # typed arrays whose squares do not fit their own type
+             np.array([100, 100, 0], dtype="int8"),
+             np.array([200, 100, 0], dtype="uint8"),
+             np.array([300, 400, 0], dtype="int16"),
+             np.array([300.0, 400.0, 0.0], dtype="float16"),
+             np.array([3, 4], dtype="int8"),
+             np.array([0.6, 0.8], dtype="float32")]
     for p in spell:
         what = "update_metadata(illum_polarization=%r)" % (p,)
         try:
